@@ -8,7 +8,9 @@
    The model follows the code WITH the C07 fixes (commit 2952ae1 as_f64 round trip -- shared
    with C08 --, and the worktree commits: i64::try_from of the float 2^63, case folding only
    for strings, sort(attribute) with failing lookups, batch/slice capacity, reverse of a
-   map); known/C07.json lists the hashes and what each of them repaired.  Behaviour that stays as it is and
+   map); known/C07.json lists the hashes and what each of them repaired.  It also follows
+   the C01 fixes that touch this code: two invalid values are ordered by kind, slice makes at
+   most 100000 slices, batch pads with at most 100000 fill items.  Behaviour that stays as it is and
    is a known finding is modelled as it is (kind-first ordering vs ==, Enumerator::RevIter in
    Value::reverse, the groupby label).
 
